@@ -14,7 +14,7 @@ SEEDED = os.path.join(ROOT, "seeded")
 
 
 # a change seeded against one property may really break a neighbouring one (e.g. aliasing seeded under "arithmetic" is a frame violation)
-ALT = {"C03": ["C13", "C04", "C06"], "C04": ["C03"], "C06": ["C03"], "C13": ["C03"], "C11": ["C13"], "C12": ["C13"], "C17": ["C01"], "C05": ["C04"], "C09": ["C13"], "C10": ["C13"]}
+ALT = {"C03": ["C13", "C04", "C06"], "C04": ["C03"], "C06": ["C03"], "C13": ["C03"], "C11": ["C13"], "C12": ["C13"], "C17": ["C01"], "C05": ["C04"], "C09": ["C13", "C05"], "C10": ["C13"]}
 
 
 def sh(cmd, **kw):
